@@ -486,8 +486,16 @@ func (ev *Ev) unary(x *ast.UnaryExpr) Value {
 		if lv == nil {
 			return ev.errorf(x.Pos(), "cannot take address")
 		}
-		// &x.f where x.f is a struct value stored in heap: pointer arithmetic not modelled
-		return Value{K: vAddr, LV: lv, Typ: ev.typeOf(x), S: SRef}
+		// &x.f: the address is a non-nil reference; for heap fields it is a function of the owning object
+		av := Value{K: vAddr, LV: lv, Typ: ev.typeOf(x), S: SRef}
+		if lv.K == lvHeap && lv.Ref != "" {
+			f := ev.u.declareFun(quote("fieldaddr:"+lv.Prefix), []Sort{SRef}, SRef)
+			av.T = app(f, lv.Ref)
+		} else {
+			av.T = ev.u.fresh("addr", SRef)
+		}
+		ev.st.assume(not(app("=", av.T, "nil")))
+		return av
 	case token.ARROW:
 		return ev.chanRecv(x)
 	}
